@@ -118,7 +118,7 @@ def install_env(eng, jobs=1):
                                  infile='<infile>')
     eng.native_modules['time'] = env.time_model()
 
-    pk = types.SimpleNamespace()
+    pk = env.ModelNS()
     pk.dumps = lambda x: Pickled(x)
 
     def loads(x):
@@ -132,7 +132,7 @@ def install_env(eng, jobs=1):
     eng.isinstance_handlers[Pickled] = lambda e, x, c: (
         isinstance(c, type) and issubclass(bytes, c))
 
-    mp = types.SimpleNamespace()
+    mp = env.ModelNS()
 
     class Pool:
 
@@ -323,7 +323,7 @@ def setup_hier(eng, jobs=4):
         if not isinstance(ex, AbsExprs):
             return [False]
         return [
-            ('C01', FLAT(ex.term) == g['last']),
+            ('C01+C06', FLAT(ex.term) == g['last']),
             ('C01', z3.Implies(sym.zbool(g['written']), ACC(g['last']))),
             ('C01', z3.Implies(z3.Not(sym.zbool(g['written'])),
                                ex.term == g['input'].term)),
@@ -394,7 +394,7 @@ def setup_hier(eng, jobs=4):
             ('C02', z3.Implies(red, z3.Not(sym.zbool(v['fresh_run'])))),
             ('C01', z3.Implies(red, z3.And(sym.zbool(g['written']),
                                            ACC(g['last'])))),
-            ('C01', FLAT(ex.term) == g['last']),
+            ('C01+C06', FLAT(ex.term) == g['last']),
             ('C13', TREE(ex.term)),
             ('C01', z3.Implies(sym.zbool(g['written']), ACC(g['last']))),
             ('C01', z3.Implies(z3.Not(sym.zbool(g['written'])),
@@ -1063,7 +1063,7 @@ def setup_check_seq(eng):
         ex = tg.attrs['exprs']
         if not isinstance(ex, AbsExprs):
             return False
-        return [('C01', FLAT(ex.term) == g['last']),
+        return [('C01+C06', FLAT(ex.term) == g['last']),
                 ('C01', z3.Implies(sym.zbool(g['written']), ACC(g['last']))),
                 ('C16', z3.Or(z3.Not(sym.zbool(g['seq_adopted'])),
                               same_exprs(g.get('collected_for'), ex)))]
@@ -1139,7 +1139,7 @@ def setup_check_par(eng):
         ex = tg_of(env_).attrs['exprs']
         if not isinstance(ex, AbsExprs):
             return [False]
-        return [('C01', FLAT(ex.term) == g['last']),
+        return [('C01+C06', FLAT(ex.term) == g['last']),
                 ('C01', z3.Implies(sym.zbool(g['written']), ACC(g['last'])))]
 
     # outer loop: one batch per iteration
@@ -1531,7 +1531,7 @@ def setup_apply_mutator(eng):
             return [False]
         return [('C13', TREE(ex.term)),
                 ('C13', same_exprs(tg.attrs['exprs'], ex)),
-                ('C01', FLAT(ex.term) == g['last']),
+                ('C01+C06', FLAT(ex.term) == g['last']),
                 ('C01', z3.Implies(sym.zbool(g['written']), ACC(g['last'])))]
 
     def havoc(e, env_, p):
@@ -1609,7 +1609,7 @@ def setup_dd_reduce(eng):
         if not isinstance(ex, AbsExprs):
             return [False]
         return [('C13', TREE(ex.term)),
-                ('C01', FLAT(ex.term) == g['last']),
+                ('C01+C06', FLAT(ex.term) == g['last']),
                 ('C01', z3.Implies(sym.zbool(g['written']), ACC(g['last'])))]
 
     def havoc(e, env_, p):
@@ -1678,7 +1678,7 @@ FileModel.__module__ = 'contracts.strategies'
 def setup_cli(eng):
     install_dd_env(eng)
     import os as real_os
-    osm = types.SimpleNamespace()
+    osm = env.ModelNS()
     osm.path = types.SimpleNamespace(
         isfile=lambda f: True, getsize=lambda f: 10,
         join=real_os.path.join, splitext=real_os.path.splitext,
